@@ -12,8 +12,10 @@ Line-protocol driver for C06 (ledger conservation).
   tx op <src> <dataOk> <k> (<tgt> <amountHex>)*k
   tx ct <eth> <nonceOk> <jsonOk> <src> <tgt|-> <gasLimitHex> <valueHex> <nz> <z> <initId|-> <gasUsed>
   tx lock <src> <n> <registryOk>
+  tx node <src> <registryOk>           OperatorNode transaction (type 7)
   exec                                 run the queued transactions as one block
   refund <k> (<addr> <dec>)*k          RefundManager.CheckAndMove over that escrow list
+  after <h> <k> (<h_i> <addr> <dec>)*k VMExecutor.after at height h: escrow += entries, then CheckAndMove(h)
   amt <amountHex>                      utility.StrToBigInt alone
 
 script := "-" | action ("," action)*
@@ -28,6 +30,7 @@ structure DS where
   univ : List Addr
   inits : List (Nat × Script)
   queue : List Tx          -- reversed
+  escrow : Escrow := []
 
 def emptyWorld : World :=
   { st := { bal := [], dead := [], fresh := 0, burned := 0 }, code := [], ctx := { gasUsed := none } }
@@ -79,6 +82,16 @@ def pairs? {α β : Type} (fa : String → Option α) (fb : String → Option β
     let t ← pairs? fa fb r
     pure ((x, y) :: t)
 
+def triples? : List String → Option Escrow
+  | [] => some []
+  | h :: a :: v :: r => do
+    let h ← nat? h
+    let a ← addr? a
+    let v ← nat? v
+    let t ← triples? r
+    pure ((h, a, v) :: t)
+  | _ => none
+
 def amount? (s : String) : Option Amount := (str? s).map strToBigInt
 
 def showAmount : Amount → String
@@ -96,6 +109,7 @@ def txOutside : Tx → Bool
   | .operator _ _ ts => ts.any (fun p => p.2 == Amount.outside)
   | .contract t => strToBigInt t.value == Amount.outside || t.nz + t.z ≥ 2 ^ 20
   | .lock _ _ _ => false
+  | .node _ _ => false
 
 instance : BEq Amount := ⟨fun a b => decide (a = b)⟩
 
@@ -125,6 +139,10 @@ def parseTx (ds : DS) : List String → Option Tx
     let n ← nat? n
     let ok ← bool? ok
     if n ≥ 2 ^ 53 then none else pure (.lock src (stakeOf n) ok)
+  | ["node", src, ok] => do
+    let src ← addr? src
+    let ok ← bool? ok
+    pure (.node src ok)
   | _ => none
 
 def showState (ds : DS) : String :=
@@ -169,6 +187,14 @@ def step (ds : DS) (line : String) : DS × String :=
       let ds' := { ds with w := { ds.w with st := { ds.w.st with bal := refundMove ds.w.st.bal ps } } }
       (ds', showState ds')
     | _, _ => (ds, "bad-op")
+  | "after" :: h :: k :: rest =>
+    match nat? h, nat? k, triples? rest with
+    | some h, some k, some ts =>
+      if ts.length != k then (ds, "bad-op") else
+      let r := afterBlock ds.w.st.bal ds.escrow h ts
+      let ds' := { ds with w := { ds.w with st := { ds.w.st with bal := r.1 } }, escrow := r.2 }
+      (ds', "E=" ++ toString (escrowTotal r.2) ++ " " ++ showState ds')
+    | _, _, _ => (ds, "bad-op")
   | ["amt", h] =>
     match amount? h with
     | some a => (ds, showAmount a)
